@@ -36,7 +36,8 @@ def write_if_changed(path, text):
 # ---------------------------------------------------------------- scanner
 
 SCAN_INPUT_OVERRIDE = ("{errno=0;while(((result)=(int)fread((buf),1,(yy_size_t)(max_size),yyin))==0&&ferror(yyin))"
-  "{if(errno!=EINTR){yyextra->input_error=1;break;}errno=0;clearerr(yyin);}}")
+  "{if(errno!=EINTR){yyextra->input_error=1;break;}errno=0;clearerr(yyin);}"
+  "if(((result)>0)&&ferror(yyin)&&(errno==EINTR))clearerr(yyin);}")
 READ_INPUT_ERROR = "__config_set_error(config,CONFIG_ERR_FILE_IO,__io_error);r=1;"
 SCAN_EOF_ACTION = ("{const char*error=NULL;FILE*fp;fp=libconfig_scanctx_next_include_file(yyextra,&error);"
   "if(fp){yyin=fp;yy_delete_buffer(YY_CURRENT_BUFFER,yyscanner);"
